@@ -472,6 +472,17 @@ func encCase(o *hxlib.Out, r *hxlib.Rng, idx int) {
 	for i := 0; i < n; i++ {
 		ms = append(ms, genMember(r, o))
 	}
+	encCheck(o, r, idx, ms, -1, nil)
+}
+
+// encCheck evaluates the encoding oracles on one argument made of the given
+// members.  forceJ/forceAlt fix the perturbed member of the independence
+// check (corpus witnesses); -1/nil lets the generator choose.
+func encCheck(o *hxlib.Out, r *hxlib.Rng, idx int, ms []member, forceJ int, forceAlt *member) {
+	n := len(ms)
+	if r == nil {
+		r = hxlib.NewRng(7)
+	}
 	arg, offs, total := buildArg(ms)
 	var ref []bool
 	allStr, allGV := true, true
@@ -562,6 +573,9 @@ func encCase(o *hxlib.Out, r *hxlib.Rng, idx int) {
 		j := r.Intn(n)
 		var alt member
 		found := false
+		if forceAlt != nil {
+			j, alt, found = forceJ, *forceAlt, true
+		}
 		for try := 0; try < 20 && !found; try++ {
 			// same type, different value
 			alt = ms[j]
@@ -877,11 +891,17 @@ func sizesCase(o *hxlib.Out, r *hxlib.Rng, idx int) {
 	if !inRange(z, signed, class) {
 		z = big.NewInt(3)
 	}
+	sizesPair(o, r, idx, z, signed, class)
+}
+
+// sizesPair: a Go value and its decimal text: the two inferences must agree
+// and be the width that is written.
+func sizesPair(o *hxlib.Out, r *hxlib.Rng, idx int, z *big.Int, signed bool, class int) {
 	gv, _ := goInt(nil, z, signed, class)
 	text := z.Text(10)
 	vals := []interface{}{gv}
 	strs := []string{text}
-	if r.Intn(4) == 0 {
+	if r != nil && r.Intn(4) == 0 {
 		// []byte and its hex text; nil and "_"; bool
 		bs := r.Bytes(r.Intn(6))
 		vals = append(vals, bs)
@@ -1086,6 +1106,12 @@ func resultCase(o *hxlib.Out, r *hxlib.Rng, idx int) {
 		t = arrInfo(r.Bool(), r.Intn(4), el)
 		z = randBig(r, int(t.Bits)+r.Intn(3))
 		o.Count("result_array_elem_" + el.Type.String())
+	case mode == 8 && r.Bool(): // mpc.Results(results, nil): every value decoded as uint1024
+		t = types.Info{Type: types.TUint, IsConcrete: true, Bits: 1024}
+		v := randBig(r, []int{1, 8, 64, 65, 200, 1024}[r.Intn(6)])
+		o.Count("result_nil_outputs")
+		resultCheck(o, idx, t, v, "big:"+v.String(), true, true)
+		return
 	default: // arbitrary info and arbitrary cell content (also out of range, negative)
 		t = genAnyInfo(r, 1)
 		z = randBig(r, int(t.Bits)+r.Intn(10))
@@ -1097,16 +1123,23 @@ func resultCase(o *hxlib.Out, r *hxlib.Rng, idx int) {
 		}
 		o.Count("result_arbitrary")
 	}
+	resultCheck(o, idx, t, z, want, r.Bool(), false)
+}
+
+// resultCheck decodes z twice on one *big.Int and evaluates inversion,
+// purity and repeatability.  nilOutputs: call mpc.Results(results, nil).
+func resultCheck(o *hxlib.Out, idx int, t types.Info, z *big.Int, want string, useResults, nilOutputs bool) {
 	op := fmt.Sprintf("c13 result %s %s", infoTok(t), z.String())
 	cell := new(big.Int).Set(z)
 	before := new(big.Int).Set(z)
 	arg := circuit.IOArg{Type: t}
-	useResults := r.Bool()
 	call := func() (string, bool) {
 		var v interface{}
 		var s string
 		p, _ := guard(func() {
-			if useResults {
+			if nilOutputs {
+				v = mpc.Results([]*big.Int{cell}, nil)[0]
+			} else if useResults {
 				v = mpc.Results([]*big.Int{cell}, circuit.IO{arg})[0]
 			} else {
 				v = mpc.Result(cell, arg)
@@ -1400,6 +1433,35 @@ func corpus(o *hxlib.Out) {
 		}
 	}
 	o.CountN("corpus_string_bytes", 256)
+
+	// hand-reproduced witnesses (DESIGN.md section 0), through the same oracles
+	i64 := func(v int64) *big.Int { return big.NewInt(v) }
+	intM := func(signed bool, w int, v int64, gv interface{}) member {
+		return member{t: intInfo(signed, w), v: leafVal{kind: "int", z: i64(v)}, str: fmt.Sprint(v), hasStr: true,
+			spell: "dec", gv: gv, hasGV: true, signed: signed}
+	}
+	// (c) setInt: no sign extension above bit 64
+	encCheck(o, nil, -2, []member{intM(true, 65, -1, int64(-1))}, -1, nil)
+	// (c') sign bits of a negative int8 left in the wires of an array given no element
+	arr := member{t: arrInfo(false, 4, intInfo(false, 8)), v: leafVal{kind: "arr"}, str: "0", hasStr: true, spell: "dec",
+		gv: nil, hasGV: true}
+	alt := intM(true, 8, -1, int8(-1))
+	encCheck(o, nil, -3, []member{intM(true, 8, 1, int8(1)), arr, intM(false, 32, 7, uint32(7))}, 0, &alt)
+	encCheck(o, nil, -4, []member{intM(true, 8, -1, int8(-1)), arr, intM(false, 32, 7, uint32(7))}, -1, nil)
+	// (a) Result mutates its argument; int5: second call differs
+	resultCheck(o, -5, intInfo(true, 8), i64(0xF0), "i8:-16", false, false)
+	resultCheck(o, -6, intInfo(true, 5), i64(16), "i8:-16", true, false)
+	resultCheck(o, -7, intInfo(true, 100), pow2(99), "big:-"+pow2(99).String(), false, false)
+	// (d) nested array result (the [2][2]uint8 output of a compiled program)
+	resultCheck(o, -8, arrInfo(false, 2, arrInfo(false, 2, intInfo(false, 8))), i64(0x02000001), "", true, false)
+	// (b) bitLen at 2 and 3; negative values
+	sizesPair(o, nil, -9, i64(2), false, 8)
+	sizesPair(o, nil, -10, i64(3), true, 8)
+	sizesPair(o, nil, -11, i64(-3), true, 8)
+	// the test-suite vectors of circuit/ioarg_test.go
+	sizesPair(o, nil, -12, i64(255), false, 8)
+	sizesPair(o, nil, -13, i64(5), false, 32)
+	o.CountN("corpus_witnesses", 12)
 }
 
 func main() {
